@@ -39,50 +39,66 @@ type dict interface {
 	Marshal() (*boc.Cell, error)
 	Unmarshal(c *boc.Cell) error
 	Fresh() dict
+	RefValues() bool
 }
 
-type gdict[K keyT] struct {
-	h        tlb.HashmapE[K, tlb.Uint32]
+// gdict is a HashmapE[K, V] whose values carry one 32-bit number: V is tlb.Uint32 (value bits in the leaf)
+// or tlb.Ref[tlb.Uint32] (value in a cell of its own behind a reference).
+type gdict[K keyT, V any] struct {
+	h        tlb.HashmapE[K, V]
 	n        int
 	fromBits func(ref.Bits) K
 	toBits   func(K) ref.Bits
+	toV      func(uint32) V
+	fromV    func(V) uint32
+	refVal   bool
 }
 
 func newDict[K keyT](n int, from func(ref.Bits) K, to func(K) ref.Bits) dict {
-	return &gdict[K]{n: n, fromBits: from, toBits: to}
+	return &gdict[K, tlb.Uint32]{n: n, fromBits: from, toBits: to,
+		toV: func(v uint32) tlb.Uint32 { return tlb.Uint32(v) }, fromV: func(v tlb.Uint32) uint32 { return uint32(v) }}
 }
 
-func (d *gdict[K]) Put(k ref.Bits, v uint32) { d.h.Put(d.fromBits(k), tlb.Uint32(v)) }
-func (d *gdict[K]) Get(k ref.Bits) (uint32, bool) {
-	v, ok := d.h.Get(d.fromBits(k))
-	return uint32(v), ok
+func newRefDict[K keyT](n int, from func(ref.Bits) K, to func(K) ref.Bits) dict {
+	return &gdict[K, tlb.Ref[tlb.Uint32]]{n: n, fromBits: from, toBits: to, refVal: true,
+		toV:   func(v uint32) tlb.Ref[tlb.Uint32] { return tlb.Ref[tlb.Uint32]{Value: tlb.Uint32(v)} },
+		fromV: func(v tlb.Ref[tlb.Uint32]) uint32 { return uint32(v.Value) }}
 }
-func (d *gdict[K]) Items() ([]ref.Bits, []uint32) {
+
+func (d *gdict[K, V]) Put(k ref.Bits, v uint32) { d.h.Put(d.fromBits(k), d.toV(v)) }
+func (d *gdict[K, V]) Get(k ref.Bits) (uint32, bool) {
+	v, ok := d.h.Get(d.fromBits(k))
+	return d.fromV(v), ok
+}
+func (d *gdict[K, V]) Items() ([]ref.Bits, []uint32) {
 	var ks []ref.Bits
 	var vs []uint32
 	for _, it := range d.h.Items() {
 		ks = append(ks, d.toBits(it.Key))
-		vs = append(vs, uint32(it.Value))
+		vs = append(vs, d.fromV(it.Value))
 	}
 	return ks, vs
 }
-func (d *gdict[K]) Lists() (int, int, int) {
+func (d *gdict[K, V]) Lists() (int, int, int) {
 	return len(d.h.Keys()), len(d.h.Values()), len(d.h.Items())
 }
-func (d *gdict[K]) Marshal() (*boc.Cell, error) {
+func (d *gdict[K, V]) Marshal() (*boc.Cell, error) {
 	c := boc.NewCell()
 	err := tlb.Marshal(c, d.h)
 	return c, err
 }
-func (d *gdict[K]) Unmarshal(c *boc.Cell) error {
-	var h tlb.HashmapE[K, tlb.Uint32]
+func (d *gdict[K, V]) Unmarshal(c *boc.Cell) error {
+	var h tlb.HashmapE[K, V]
 	if err := tlb.Unmarshal(c, &h); err != nil {
 		return err
 	}
 	d.h = h
 	return nil
 }
-func (d *gdict[K]) Fresh() dict { return &gdict[K]{n: d.n, fromBits: d.fromBits, toBits: d.toBits} }
+func (d *gdict[K, V]) Fresh() dict {
+	return &gdict[K, V]{n: d.n, fromBits: d.fromBits, toBits: d.toBits, toV: d.toV, fromV: d.fromV, refVal: d.refVal}
+}
+func (d *gdict[K, V]) RefValues() bool { return d.refVal }
 
 // ---------------------------------------------------------------------------------------------
 
@@ -178,6 +194,28 @@ func drawKeys(c *core.Ctx, n, maxKeys int, norm func(ref.Bits) ref.Bits) []ref.B
 	return keys
 }
 
+var refValues bool // set per case: values live behind a reference
+
+func valueOf(v uint32) ref.DictValue {
+	if refValues {
+		return ref.DictValue{Refs: []*ref.RCell{ref.NewRCell(ref.Bits{}.AppendUint(uint64(v), 32), false)}}
+	}
+	return ref.DictValue{Bits: ref.Bits{}.AppendUint(uint64(v), 32)}
+}
+
+func numberOf(v ref.DictValue) (uint64, bool) {
+	if refValues {
+		if len(v.Bits) != 0 || len(v.Refs) != 1 || v.Refs[0].BitLen != 32 || len(v.Refs[0].Refs) != 0 {
+			return 0, false
+		}
+		return v.Refs[0].Bits().Uint(0, 32), true
+	}
+	if len(v.Bits) != 32 || len(v.Refs) != 0 {
+		return 0, false
+	}
+	return v.Bits.Uint(0, 32), true
+}
+
 func modelSorted(model map[string]uint32) []ref.DictEntry {
 	var ks []string
 	for k := range model {
@@ -190,7 +228,7 @@ func modelSorted(model map[string]uint32) []ref.DictEntry {
 		for i := range k {
 			b[i] = k[i] == '1'
 		}
-		out = append(out, ref.DictEntry{Key: b, Value: ref.DictValue{Bits: ref.Bits{}.AppendUint(uint64(model[k]), 32)}})
+		out = append(out, ref.DictEntry{Key: b, Value: valueOf(model[k])})
 	}
 	return out
 }
@@ -209,8 +247,8 @@ func compareWithModel(d dict, model map[string]uint32, what string) error {
 		if !ks[i].Equal(want[i].Key) {
 			return fmt.Errorf("%s: entry %d has key %s, model (ascending key bits) has %s", what, i, ks[i], want[i].Key)
 		}
-		if uint64(vs[i]) != want[i].Value.Bits.Uint(0, 32) {
-			return fmt.Errorf("%s: key %s -> %d, model %d", what, ks[i], vs[i], want[i].Value.Bits.Uint(0, 32))
+		if wv, _ := numberOf(want[i].Value); uint64(vs[i]) != wv {
+			return fmt.Errorf("%s: key %s -> %d, model %d", what, ks[i], vs[i], wv)
 		}
 	}
 	return nil
@@ -259,6 +297,10 @@ var dictCheck = &core.Check{Name: "c05/dict", Quick: 3000, Thorough: 250000, Fn:
 	keys := drawKeys(c, n, maxKeys, norm)
 	model := map[string]uint32{}
 	d := kind.new()
+	refValues = d.RefValues()
+	if refValues {
+		c.Class("values behind a reference")
+	}
 	// insertion in drawn order, with updates of existing keys and lookups in between
 	order := make([]int, len(keys))
 	for i := range order {
@@ -332,15 +374,18 @@ var dictCheck = &core.Check{Name: "c05/dict", Quick: 3000, Thorough: 250000, Fn:
 		return fmt.Errorf("%s: reference decoder reads %d entries from tongo's encoding, model has %d", kind.name, len(got), len(want))
 	}
 	for i := range want {
-		if !got[i].Key.Equal(want[i].Key) || !got[i].Value.Bits.Equal(want[i].Value.Bits) || len(got[i].Value.Refs) != 0 {
-			return fmt.Errorf("%s: reference decoder reads entry %d as %s -> %s, model %s -> %s", kind.name, i, got[i].Key, got[i].Value.Bits, want[i].Key, want[i].Value.Bits)
+		gv, okv := numberOf(got[i].Value)
+		wv, _ := numberOf(want[i].Value)
+		if !got[i].Key.Equal(want[i].Key) || !okv || gv != wv {
+			return fmt.Errorf("%s: reference decoder reads entry %d as %s -> %d (well-formed value: %v), model %s -> %d", kind.name, i, got[i].Key, gv, okv, want[i].Key, wv)
 		}
 	}
 	// (c) insertion order does not matter
 	for _, ord := range [][]ref.DictEntry{want, reversed(want), permuted(want, sm)} {
 		d2 := kind.new()
 		for _, e := range ord {
-			d2.Put(e.Key, uint32(e.Value.Bits.Uint(0, 32)))
+			ev, _ := numberOf(e.Value)
+			d2.Put(e.Key, uint32(ev))
 		}
 		c2, err := d2.Marshal()
 		if err != nil {
